@@ -90,13 +90,14 @@ def generate(rng: random.Random, tier: str, seed: int) -> dict:
     # bias towards use-before-create: add a later producer for a required key
     rng.shuffle(kinds)
     for kind in kinds[: rng.randint(5, 8)]:
-        c = {"kind": kind, "trace_mode": rng.choice(["file", "dir"]), "flags": [], "subprocess_crosscheck": rng.random() < 0.012}
+        c = {"kind": kind, "trace_mode": rng.choice(["file", "dir"]), "flags": [], "subprocess_crosscheck": rng.random() < 0.012,
+             "verbosity": rng.choice([None, None, "-v", "-q", "--verbose"])}
         if kind == "flag_no_exec":
             c["flags"] = rng.sample(FLAGS, rng.randint(1, 2))
             c["with_set"] = rng.random() < 0.4
         elif kind == "invalid_config":
-            c["how"] = rng.choice(["unknown_processor", "unknown_param", "type_gate", "probe_no_key", "deleted_then_required",
-                                   "external_deleted_then_required", "external_renamed_then_required"])
+            c["how"] = rng.choice(["unknown_processor", "unknown_param", "type_gate", "type_gate_subclass", "probe_no_key",
+                                   "deleted_then_required", "external_deleted_then_required", "external_renamed_then_required"])
             c["at"] = rng.randrange(n)
             if rng.random() < 0.3:
                 c["flags"] = [rng.choice(["--dry-run", "--run-space-dry-run"])]
@@ -159,6 +160,13 @@ def _mutate_invalid(nodes: list[dict], how: str, at: int, truth: list[dict]) -> 
         if not cands:
             return None
         nodes.insert(cands[at % len(cands)], {"processor": "SvTextLen"})
+        return nodes
+    if how == "type_gate_subclass":
+        # the next node requires a strict SUBCLASS of what the previous data node outputs (FloatDataType -> SvSubFloat)
+        cands = [i for i in range(1, len(truth) + 1) if truth[i - 1]["out"] == "float" and truth[i - 1]["kind"] != "ctx"]
+        if not cands:
+            return None
+        nodes.insert(cands[at % len(cands)], {"processor": "SvNeedsSubFloat"})
         return nodes
     if how == "probe_no_key":
         cands = [i for i, t in enumerate(truth) if t["kind"] == "probe"]
@@ -312,6 +320,9 @@ def run_case(sc: dict, c: dict, w, stats: dict, idx: int) -> list[dict]:
     argv += list(c.get("flags", []))
     if c.get("flags") and kind != "flag_no_exec":
         label += "+flag"
+    if c.get("verbosity") and kind != "usage_error":
+        argv.append(c["verbosity"])
+        stats["probe.verbosity_flag"] = stats.get("probe.verbosity_flag", 0) + 1
     argv += _ctx_args(ctx, skip=skip_ctx)
     harness.write_cli_config({"nodes": nodes}, f"{name}.yaml", trace=trace, run_space=run_space)
     for fn, text in extra_files.items():
